@@ -216,7 +216,11 @@ class Check:
             samples = [o.brief() for o in self.obs[:2]]
         # obligations that failed but are listed known findings are *not* counted as obligations discharged;
         # they are reported separately so that obligations == discharged only for what is actually proved.
-        counted = [o for o in deductive if o.key not in known_keys and o.status != FAILED]
+        # (undecided / unsupported obligations are listed under "undecided" and make the check exit 2; failed ones that are not known findings
+        # are violations and make it exit 1: in both cases the counts below differ from the number generated, which is by_engine's total)
+        und_keys = {o.key for o in undecided}
+        counted = [o for o in deductive if o.key not in known_keys and o.status != FAILED and o.key not in und_keys]
+        counted += [o for o in deductive if o.status == FAILED and o.key not in known_keys]
         cov = {
             "obligations": len(counted),
             "discharged": sum(1 for o in counted if o.status == DISCHARGED),
